@@ -51,6 +51,23 @@ def _k2eps(seed):
     return Driver("k2eps", [two_regime_series(10, 2, 11)], W=1, K=2, beta=1.0, m=2, eps=0.05)
 
 
+@driver("k2eps2")
+def _k2eps2(seed):
+    # a floor large enough to zero off-diagonal entries that matter (NW = 4)
+    return Driver("k2eps2", [two_regime_series(10, 2, 11)], W=2, K=2, beta=1.0, m=2, eps=0.15, biased=True)
+
+
+@driver("k2tiny")
+def _k2tiny(seed):
+    # small units: within-cluster variances around 1e-8
+    return Driver("k2tiny", [two_regime_series(9, 1, 3) * 1e-4], W=2, K=2, beta=1.0, m=2, biased=True)
+
+
+@driver("k2huge")
+def _k2huge(seed):
+    return Driver("k2huge", [two_regime_series(9, 1, 3) * 1e3], W=2, K=2, beta=1.0, m=2)
+
+
 @driver("k2w3")
 def _k2w3(seed):
     return Driver("k2w3", [two_regime_series(10, 1, 13)], W=3, K=2, beta=1.5, m=2)
